@@ -542,8 +542,62 @@ func analyzeDelegators(p *load.Program, r *Roles, res *UnitResult) {
 	}
 }
 
+// interfaceShapes: the three public node interfaces are part of the contract the lifecycle
+// assertions rely on (a node exposing GetMaxRetries/GetWait IS retryable; one with ExecFallback
+// HAS a fallback): their method sets are frozen from the documentation.
+func interfaceShapes(p *load.Program, r *Roles, col *Col) {
+	q := func(pk *types.Package) string { return pk.Name() }
+	want := map[string]map[string]string{
+		"Node": {
+			"Prep": "func(ctx context.Context, shared *flyt.SharedStore) (any, error)",
+			"Exec": "func(ctx context.Context, prepResult any) (any, error)",
+			"Post": "func(ctx context.Context, shared *flyt.SharedStore, prepResult any, execResult any) (flyt.Action, error)",
+		},
+		"RetryableNode": {
+			"Prep":          "func(ctx context.Context, shared *flyt.SharedStore) (any, error)",
+			"Exec":          "func(ctx context.Context, prepResult any) (any, error)",
+			"Post":          "func(ctx context.Context, shared *flyt.SharedStore, prepResult any, execResult any) (flyt.Action, error)",
+			"GetMaxRetries": "func() int",
+			"GetWait":       "func() time.Duration",
+		},
+		"FallbackNode": {
+			"ExecFallback": "func(prepResult any, err error) (any, error)",
+		},
+	}
+	for name, methods := range want {
+		n := p.Named(name)
+		if n == nil {
+			col.Unproven("C01.R7,C02.R1", name+":interface-shape", p.Position(0), "interface "+name+" not found", nil)
+			continue
+		}
+		it, ok := n.Underlying().(*types.Interface)
+		if !ok {
+			col.Check("C01.R7,C02.R1", name+":interface-shape", false, p.Position(n.Obj().Pos()), name+" is no longer an interface", nil)
+			continue
+		}
+		got := map[string]string{}
+		for i := 0; i < it.NumMethods(); i++ {
+			m := it.Method(i)
+			got[m.Name()] = types.TypeString(m.Type(), q)
+		}
+		okAll, why := true, ""
+		for mn, sig := range methods {
+			if got[mn] != sig {
+				okAll, why = false, fmt.Sprintf("method %s has signature %q, documented %q", mn, got[mn], sig)
+			}
+		}
+		for mn := range got {
+			if _, ok := methods[mn]; !ok {
+				okAll, why = false, "additional method "+mn+" is required: nodes that only expose the documented methods no longer satisfy the interface, so the lifecycle silently skips their retry/fallback handling"
+			}
+		}
+		col.Check("C01.R7,C02.R1", name+":interface-shape", okAll, p.Position(n.Obj().Pos()), "the public interface "+name+" changed: "+why, nil)
+	}
+}
+
 func analyzeMethodSets(p *load.Program, r *Roles, res *UnitResult) {
 	col := res.Col
+	interfaceShapes(p, r, col)
 	type row struct {
 		typ   *types.Named
 		name  string
